@@ -15,6 +15,7 @@ import TetlProofs.C19.Members
 import TetlProofs.C19.Transpose
 import TetlProofs.C19.StrideEq
 import TetlProofs.C19.Exhaustive
+import TetlProofs.C19.SubExtents
 namespace Tetl.C19.Props
 open Tetl Tetl.C19 Tetl.C19.Spec Tetl.C19.Lemmas
 
@@ -350,6 +351,16 @@ theorem ctor_mapping_closed_form (l : Lay) (t : IdxT) (hv : IdxT.Valid t) (pat :
   obtain ⟨e, h1, h2⟩ := ofVals_extIs t hv pat vals hc hm all
   exact ⟨e, h1, mapIdx_eq l t hv e vals h2 hf idx hr, reqSpan_eq l t hv e vals h2 hf, offSpec_lt l vals idx hr⟩
 example : Consistent [some 2, none, some 4] [2, 3, 4] ∧ Fits ⟨8, true⟩ [2, 3, 4] ∧ InRange [2, 3, 4] [1, 2, 3] := by decide
+
+/-- `submdspan_extents(ext, slices...)` with `full_extent` / index slice specifiers (`keep`: `true` = `full_extent`) never
+    leaves an array and yields an extents object that reports exactly the extents of the kept dimensions, in order, with
+    their static extents (after the fix of the reversed static extents) -/
+theorem submdspan_extents_eq (t : IdxT) (hv : IdxT.Valid t) (e : Ext) (vals : List Nat) (he : ExtIs t e vals)
+    (hc : Consistent e.pat vals) (hm : ∀ x ∈ vals, x ≤ t.maxV) (keep : List Bool) (hk : keep.length = vals.length) :
+    ∃ r, submdspanExtents t e keep = .ok r ∧ ExtIs t r (keepOf keep vals) ∧ r.pat = keepOf keep e.pat
+      ∧ Consistent r.pat (keepOf keep vals) := submdspanExtents_eq t hv e vals he hc hm keep hk
+example : Consistent [some 2, none, some 4] [2, 3, 4] ∧ keepOf [true, false, true] [2, 3, 4] = [2, 4]
+    ∧ keepOf [true, false, true] [some 2, none, some 4] = [some 2, some 4] := by decide
 
 /-! ## layout_transpose -/
 
